@@ -69,6 +69,60 @@ fn op(re: &Regex, kind: usize, text: &str) -> String {
     }
 }
 
+/// Scenario 4 — ownership across threads: results outlive the regex they came from, and the last
+/// handles of a regex family (the original, a clone, the `Captures` each produced) are dropped on
+/// different threads at overlapping times.
+fn drop_race(solo_mode: bool, expected: Option<Vec<Vec<String>>>) {
+    let pattern = r"(?<k>[a-z]+)=(?<v>[0-9]+)(?!x)";
+    let texts = ["ab=12", "q=7 r=8"];
+    fn read(c: Captures<'_>) -> String {
+        let k = c.name("k").map(|m| m.as_str().to_string());
+        let v = c.name("v").map(|m| m.as_str().to_string());
+        format!("{:?} {:?} {}", k, v, c.len())
+    }
+    fn work(re: Regex, text: &str) -> String {
+        // take the captures, give the regex up, then read (and drop) the captures
+        let caps = re.captures(text);
+        drop(re);
+        match caps {
+            Ok(Some(c)) => read(c),
+            Ok(None) => "-".to_string(),
+            Err(e) => format!("Err({:?})", e),
+        }
+    }
+    if solo_mode {
+        let a = work(Regex::new(pattern).expect("pattern compiles"), texts[0]);
+        let b = work(Regex::new(pattern).expect("pattern compiles"), texts[1]);
+        print!("{}\u{2}{}", a, b);
+        return;
+    }
+    let original = Regex::new(pattern).expect("pattern compiles");
+    let c1 = original.clone();
+    let c2 = original.clone();
+    let h1 = thread::spawn(move || work(c1, "ab=12"));
+    let h2 = thread::spawn(move || work(c2, "q=7 r=8"));
+    // the original goes away while the clones and their results are still in use elsewhere
+    drop(original);
+    let got = vec![h1.join().ok(), h2.join().ok()];
+    let fresh: Vec<String> = match &expected {
+        Some(e) => e.iter().map(|v| v.join("\u{1}")).collect(),
+        None => vec![
+            work(Regex::new(pattern).expect("pattern compiles"), texts[0]),
+            work(Regex::new(pattern).expect("pattern compiles"), texts[1]),
+        ],
+    };
+    let mut bad = false;
+    for (t, g) in got.into_iter().enumerate() {
+        if g.as_deref() != fresh.get(t).map(|s| s.as_str()) {
+            eprintln!("C18-MISMATCH scenario 4 thread {}: concurrent {:?} solo {:?}", t, g, fresh.get(t));
+            bad = true;
+        }
+    }
+    if bad {
+        std::process::exit(1);
+    }
+}
+
 /// Which operation thread `t` performs as its `k`-th: the first operation of threads 0 and 2 is the
 /// metadata one (first concurrent use of anything lazily built), the rest rotate through the API.
 fn kind_of(t: usize, k: usize, which: usize) -> usize {
@@ -102,6 +156,10 @@ fn main() {
         (r"([a-z])-([a-z])", ["a-b", "--c-d", "zz"]),
         (r"(?<w>[a-z]+)(?<n>[0-9])?(?=!)", ["ab1!", "x! y2!", "zz"]),
     ];
+    if which == 4 {
+        drop_race(solo_mode, expected);
+        return;
+    }
     let (pattern, texts) = scenarios[which % scenarios.len()];
     // The regex the threads share is NOT touched before they start: whatever it builds lazily is
     // built under concurrency. The reference results come from a second, fresh regex (below).
